@@ -156,3 +156,13 @@ func RunReplay(harnesses map[string]func()) {
 	}()
 	h()
 }
+
+// EnumMap returns to[i] where e == from[i] (e itself if it is not listed).
+func EnumMap(e string, from, to []string) string {
+	for i := range from {
+		if from[i] == e {
+			return to[i]
+		}
+	}
+	return e
+}
